@@ -178,6 +178,12 @@ func AllShapes(idx int) *schema.File {
 		{Name: "mm", Num: 4, Kind: "map", MapKey: "string", MapVal: "int32"},
 		{Name: "hi", Num: 63, Kind: "int32"},
 	}}
+	// Ser: custom_serialize WITHOUT custom_type (the Go field keeps its default type)
+	ser := schema.Message{Name: "Ser", Fields: []schema.Field{
+		{Name: "raw", Num: 1, Kind: "bytes", Cast: "storj.io/picobuf/verifharness/customser.Raw"},
+		{Name: "port", Num: 2, Kind: "uint32", Cast: "storj.io/picobuf/verifharness/customser.Port"},
+		{Name: "more", Num: 3, Kind: "bytes", Label: "repeated", Cast: "storj.io/picobuf/verifharness/customser.Raw"},
+	}}
 	ack := schema.Message{Name: "Ack"}
 	envelope := schema.Message{Name: "Envelope", Capture: true}
 	shapeInner := schema.Message{Name: "Shape_Inner", Parent: "Shape", Capture: true, Fields: []schema.Field{
@@ -194,7 +200,7 @@ func AllShapes(idx int) *schema.File {
 		{Name: "kids", Num: 1, Kind: "message", Ref: "Tree", Label: "repeated", Always: true},
 		{Name: "v", Num: 2, Kind: "int32"},
 	}}
-	f.Messages = append(f.Messages, plain, opt, rep, one, cast, wide, nest, nestInner, nestDeep, user, capOne, ack, envelope, shape, shapeCircle, shapeInner, tree)
+	f.Messages = append(f.Messages, plain, opt, rep, one, cast, wide, nest, nestInner, nestDeep, user, capOne, ser, ack, envelope, shape, shapeCircle, shapeInner, tree)
 	return f
 }
 
